@@ -257,3 +257,6 @@ def run(chk):
     from ..report import RuleAlias
     c17.check_provenance(RuleAlias(chk, {"R17.3": "R01.5"}, "every satisfaction the choosers return takes its stack "
                                                             "and both locks from the same candidate"), F, P)
+    from . import e2e
+    chk.guard("R01.6", "e2e", e2e.check, chk, F, "R01.6", "sound",
+              "end to end on a bounded family (~60 scripts x every subset of their keys x preimage sets x locks met or not, both modes): the template the satisfier returns uses only owned assets and its witness makes the specification's script succeed (reference execution) under the locks the template reports")
